@@ -83,6 +83,18 @@ def monitor(c):
             if lost:
                 return ("selected test(s) %r of layer %s never started in any process although every layer they need "
                         "could be set up" % (["t%d" % t for t in lost[:6]], worlds.layer_name(w, li)), "C04:test-lost")
+        # a layer whose setUp fails the first time only can be set up when the next stack needs it: which attempts are
+        # made follows from the fault script - the model (the object of C04's theorems) says which tests run then
+        pm = getattr(c, "parent_model", None)
+        if pm is not None and "error" not in pm and not cw.stateful(w) and not c.opts.get("post_mortem") \
+                and any(l["setUpRaises"] and 999999 not in l["setUpRaises"] for l in w["layers"]):
+            model_started = {e[1] for m_ in [pm] + list(c.child_models.values()) if "error" not in m_
+                             for e in m_["trace"] if e[0] == "tstart"}
+            lost = sorted(model_started - started)
+            if lost:
+                return ("selected test(s) %r never started in any process although their layers can be set up (a layer "
+                        "whose setUp failed on an earlier attempt succeeds on the next one)" % (["t%d" % t for t in lost[:6]],),
+                        "C04:test-lost-retry")
     # "recorded against that test", also in children: a layer subprocess that ran to its end delivered a report the
     # parent could use
     if "Could not communicate with subprocess" in out and not c.obs.timeout \
